@@ -273,6 +273,13 @@ pub assume_specification [usize::from_str_radix] (s: &str, radix: u32) -> (r: Re
 //@before n as i16 :: proof { assert((n as i16) as u16 == n) by (bit_vector); }
 //@end
 
+//@action src/lib/data_parser/data_parser.rs s_byte_num = u_byte_num as nm_ld_s_byte_num_cast
+//@contract
+//@dropunused
+    ensures r as u8 == n, //# C12 number.unsigned_literal_keeps_its_bit_pattern
+//@before n as i8 :: proof { assert((n as i8) as u8 == n) by (bit_vector); }
+//@end
+
 //@action src/lib/preprocessor/preprocessor.rs raw_addr = offset as nm_pp_raw_addr_offset
 //@contract
 //@dropunused
